@@ -142,3 +142,102 @@ func c16ProxyLayer(c *Ctx, mods []string) (evals int64, skipped string) {
 	}
 	return evals, ""
 }
+
+// c16ProxyHistory: the option the proxy acts on is a function of the page, not
+// of what the same proxy served before.  One list with path-restricted
+// exceptions gives five pages of one host different verdicts; every ordered
+// pair of pages is fetched through one fresh proxy instance.
+func c16ProxyHistory(c *Ctx) (evals int64, skipped string) {
+	const page = "<html><head><title>t</title></head><body><div class=\"banner\">ad</div></body></html>"
+	log.SetOutput(io.Discard)
+	var origin *httptest.Server
+	if p := protect(func() {
+		origin = httptest.NewServer(http.HandlerFunc(func(w http.ResponseWriter, _ *http.Request) {
+			w.Header().Set("Content-Type", "text/html; charset=utf-8")
+			_, _ = io.WriteString(w, page)
+		}))
+	}); p != nil {
+		return 0, fmt.Sprintf("cannot listen on the loopback interface: %v", p)
+	}
+	defer origin.Close()
+	_, port, _ := net.SplitHostPort(origin.Listener.Addr().String())
+	type pg struct {
+		path string
+		mods []string
+	}
+	pages := []pg{{"/plain/x", nil}, {"/e/x", []string{"elemhide"}}, {"/g/x", []string{"generichide"}}, {"/j/x", []string{"jsinject"}}, {"/d/x", []string{"document"}}, {"/ej/x", []string{"elemhide", "jsinject"}}}
+	list := "##.banner\n"
+	for _, p := range pages {
+		if p.mods != nil {
+			list += "@@" + p.path + "|$" + strings.Join(p.mods, ",") + "\n" // the URL ends in this path
+		}
+	}
+	listPath := filepath.Join(os.Getenv("VERIF_WORK"), fmt.Sprintf("c16-proxy-hist-%d.txt", os.Getpid()))
+	if err := os.WriteFile(listPath, []byte(list), 0o600); err != nil {
+		panic(HarnessError(err.Error()))
+	}
+	defer os.Remove(listPath)
+	reOption := regexp.MustCompile(`[?&]option=(\d+)`)
+	fetch := func(client *http.Client, path string) (string, error) {
+		req, _ := http.NewRequest(http.MethodGet, "http://localhost:"+port+path, nil)
+		req.Header.Set("Accept", "text/html,*/*;q=0.8")
+		resp, err := client.Do(req)
+		if err != nil {
+			return "", err
+		}
+		body, err := io.ReadAll(resp.Body)
+		_ = resp.Body.Close()
+		if err != nil {
+			return "", err
+		}
+		if strings.Contains(string(body), "injections.verif.test/content-script.js") {
+			if m := reOption.FindStringSubmatch(string(body)); m != nil {
+				return "injected option=" + m[1], nil
+			}
+			return "injected, no option", nil
+		}
+		if string(body) != page {
+			return "page changed without an injection", nil
+		}
+		return "page untouched", nil
+	}
+	expect := func(p pg) string {
+		if o := c16Expected(p.mods); o != rules.CosmeticOptionNone {
+			return fmt.Sprintf("injected option=%d", o)
+		}
+		return "page untouched"
+	}
+	for _, first := range pages {
+		for _, second := range pages {
+			srv, err := proxy.NewServer(proxy.Config{
+				ProxyConfig:   gomitmproxy.Config{ListenAddr: &net.TCPAddr{IP: net.IPv4(127, 0, 0, 1), Port: 0}},
+				FiltersPaths:  map[int]string{1: listPath},
+				InjectionHost: "injections.verif.test",
+			})
+			if err != nil {
+				return evals, "proxy.NewServer: " + err.Error()
+			}
+			if err = srv.Start(); err != nil {
+				return evals, "proxy.Server.Start: " + err.Error()
+			}
+			proxyURL, _ := url.Parse("http://" + proxy.VerifProxyAddr(srv).String())
+			client := &http.Client{Timeout: 20 * time.Second, Transport: &http.Transport{Proxy: http.ProxyURL(proxyURL), DisableKeepAlives: true}}
+			for k, p := range []pg{first, second, first} {
+				got, err := fetch(client, p.path)
+				if err != nil {
+					srv.Close()
+					return evals, "request through the proxy failed: " + err.Error()
+				}
+				evals++
+				if want := expect(p); got != want {
+					c.Run.Violate(ev.Violation{Pred: "proxy-option-is-a-function-of-the-page", Sig: map[string]any{"first": first.path, "second": second.path, "fetch": k},
+						What:   fmt.Sprintf("one proxy instance, pages %s, %s, %s of one host in this order: fetch #%d (%s, exception modifiers %v): %s, expected %s", first.path, second.path, first.path, k+1, p.path, p.mods, got, want),
+						Replay: map[string]any{"mods": []string{}, "proxy_history": true}})
+					break
+				}
+			}
+			srv.Close()
+		}
+	}
+	return evals, ""
+}
